@@ -305,6 +305,28 @@ def run(prog, rep, tier='quick', config='default'):
                 if (ne and not t) or (eq and t):
                     has_usd_guard = True
         k = '%s|loader-only-for-usd-without-rate' % fn.name
+        if not (has_rate_guard and has_usd_guard):
+            # the two tests made in a helper whose answer comes back as a variant (`match RateLookup::needed_for(curr, rate)? { .. }`):
+            # every path to the look-up, on the body with the helper spliced in, has passed "no rate given" and "currency is USD"
+            base_fn = getattr(fn, 'origin', fn)
+            view = mir.inline_view(prog, base_fn)
+            sites = [x for x in view.calls if x.callee == c.callee and not x.inlined]
+
+            def atom(g_, x_):
+                t0 = g_.ty.get(x_.arg_local(0), '') if x_.args else ''
+                if x_.short in ('is_some', 'is_none') and re.search(r'Option<rust_decimal::Decimal>', t0 or ''):
+                    return ('rate_' + x_.short, 'bool')
+                if x_.decl.endswith(('PartialEq::eq', 'PartialEq::ne')) and mir.provenance(g_, x_.args[1] if len(x_.args) > 1 else x_.args[0], follow_all_call_args=True).has_call(r'Currency::usd$'):
+                    return ('usd_' + x_.short, 'bool')
+                return None
+            ok_all = bool(sites)
+            for x in sites:
+                paths = mir.symbolic_paths(view, 0, x.bb, atom, prog=prog)
+                if not paths or not all((p_.get('rate_is_some') is False or p_.get('rate_is_none') is True) and
+                                        (p_.get('usd_eq') is True or p_.get('usd_ne') is False) for p_ in paths):
+                    ok_all = False
+            if ok_all:
+                has_rate_guard = has_usd_guard = True
         if has_rate_guard and has_usd_guard:
             rep.ok('R12d', k, where=c.where(), fn=fn.name, detail='reached only when no explicit rate is given and the currency equals USD')
         else:
